@@ -94,68 +94,70 @@ Qed.
 
 Lemma sstep_reader rc r i s o : reader_op o = true ->
   sstep rc r i s o =
-  match attempt rc r (s_down s) (s_err s) o with
-  | (CNone, down', c) => ({| s_agg := s_agg s; s_down := down'; s_err := s_err s |}, [], c)
+  match attempt rc r (s_down s) (s_err s) (s_any s) o with
+  | (CNone, down', c) => ({| s_agg := s_agg s; s_down := down'; s_err := s_err s; s_any := s_any s |}, [], c)
   | (CDelivered, down', c) =>
-      ({| s_agg := snd (collect (scfg rc) 0 (s_agg s)); s_down := down'; s_err := s_err s |},
+      ({| s_agg := snd (collect (scfg rc) 0 (s_agg s)); s_down := down'; s_err := s_err s; s_any := next_ad rc (s_any s) |},
        [o_points (fst (collect (scfg rc) 0 (s_agg s)))], c)
   | (CDropped, down', c) =>
-      ({| s_agg := snd (collect (scfg rc) 0 (s_agg s)); s_down := down'; s_err := s_err s |}, [], c)
+      ({| s_agg := snd (collect (scfg rc) 0 (s_agg s)); s_down := down'; s_err := s_err s; s_any := next_ad rc (s_any s) |}, [], c)
   end.
 Proof. destruct o; intros H; try discriminate; reflexivity. Qed.
 
-Lemma cycles_reader lossy rc r i o t down err cur : reader_op o = true ->
-  cycles lossy rc r i (o :: t) down err cur =
-  match attempt rc r down err o with
-  | (CNone, down', _) => cycles lossy rc r i t down' err cur
-  | (CDelivered, down', _) => cur :: cycles lossy rc r i t down' err []
-  | (CDropped, down', _) => cycles lossy rc r i t down' err (if lossy && r_delta rc then [] else cur)
+Lemma cycles_reader lossy rc r i o t down err ad cur : reader_op o = true ->
+  cycles lossy rc r i (o :: t) down err ad cur =
+  match attempt rc r down err ad o with
+  | (CNone, down', _) => cycles lossy rc r i t down' err ad cur
+  | (CDelivered, down', _) => cur :: cycles lossy rc r i t down' err (next_ad rc ad) []
+  | (CDropped, down', _) => cycles lossy rc r i t down' err (next_ad rc ad) (if lossy && r_delta rc then [] else cur)
   end.
 Proof. destruct o; intros H; try discriminate; reflexivity. Qed.
 
-Lemma pending_reader lossy rc r i o t down err cur : reader_op o = true ->
-  pending lossy rc r i (o :: t) down err cur =
-  match attempt rc r down err o with
-  | (CNone, down', _) => pending lossy rc r i t down' err cur
-  | (CDelivered, down', _) => pending lossy rc r i t down' err []
-  | (CDropped, down', _) => pending lossy rc r i t down' err (if lossy && r_delta rc then [] else cur)
+Lemma pending_reader lossy rc r i o t down err ad cur : reader_op o = true ->
+  pending lossy rc r i (o :: t) down err ad cur =
+  match attempt rc r down err ad o with
+  | (CNone, down', _) => pending lossy rc r i t down' err ad cur
+  | (CDelivered, down', _) => pending lossy rc r i t down' err (next_ad rc ad) []
+  | (CDropped, down', _) => pending lossy rc r i t down' err (next_ad rc ad) (if lossy && r_delta rc then [] else cur)
   end.
 Proof. destruct o; intros H; try discriminate; reflexivity. Qed.
 
-Lemma codes_reader rc r o t down err : reader_op o = true ->
-  codes rc r (o :: t) down err =
-  (if (snd (attempt rc r down err o) =? E_NA)%N then [] else [snd (attempt rc r down err o)]) ++
-  codes rc r t (snd (fst (attempt rc r down err o))) err.
-Proof. destruct o; intros H; try discriminate; cbn [codes]; destruct (attempt rc r down err _) as [[c d] x]; reflexivity. Qed.
+Lemma codes_reader rc r o t down err ad : reader_op o = true ->
+  codes rc r (o :: t) down err ad =
+  match attempt rc r down err ad o with
+  | (x, down', c) => (if (c =? E_NA)%N then [] else [c]) ++
+                     codes rc r t down' err (match x with CNone => ad | _ => next_ad rc ad end)
+  end.
+Proof. destruct o; intros H; try discriminate; reflexivity. Qed.
 
 (** * The operational stream is the aggregator run over the (lossy) cycles of the history *)
-Lemma srun_cycles rc r i h : forall a cur down err n,
+Lemma srun_cycles rc r i h : forall a cur down err ad n,
   (r_delta rc = true -> a = new_agg 0) ->
-  fst (fst (srun rc r i h {| s_agg := measure_all (scfg rc) (vm1 cur) a; s_down := down; s_err := err |})) =
-  map o_points (arun (scfg rc) (map vm1 (cycles true rc r i h down err cur)) tm0 n a).
+  fst (fst (srun rc r i h {| s_agg := measure_all (scfg rc) (vm1 cur) a; s_down := down; s_err := err; s_any := ad |})) =
+  map o_points (arun (scfg rc) (map vm1 (cycles true rc r i h down err ad cur)) tm0 n a).
 Proof.
-  induction h as [|o t IH]; intros a cur down err n Ha; [reflexivity|].
+  induction h as [|o t IH]; intros a cur down err ad n Ha; [reflexivity|].
   rewrite srun_cons_outs.
   destruct (reader_op o) eqn:Hro.
-  - rewrite (sstep_reader rc r i _ o Hro), (cycles_reader true rc r i o t down err cur Hro).
-    cbn [s_down s_err s_agg].
-    destruct (attempt rc r down err o) as [[c d'] code]. destruct c; unfold outs_of, st_of; cbn [fst snd app].
+  - rewrite (sstep_reader rc r i _ o Hro), (cycles_reader true rc r i o t down err ad cur Hro).
+    cbn [s_down s_err s_agg s_any].
+    destruct (attempt rc r down err ad o) as [[c d'] code]. destruct c; unfold outs_of, st_of; cbn [fst snd app].
     + now apply IH.
     + cbn [map]. rewrite arun_cons. cbn [map]. f_equal.
-      apply (IH _ [] d' err (S n)). intros Hd. rewrite (Ha Hd). now apply collect_delta_reset.
+      apply (IH _ [] d' err _ (S n)). intros Hd. rewrite (Ha Hd). now apply collect_delta_reset.
     + destruct (r_delta rc) eqn:Hd; cbn [andb].
-      * rewrite (Ha eq_refl). rewrite collect_delta_reset by exact Hd. apply (IH (new_agg 0) [] d' err n). reflexivity.
+      * rewrite (Ha eq_refl). rewrite collect_delta_reset by exact Hd. apply (IH (new_agg 0) [] d' err _ n). reflexivity.
       * destruct (scfg_cum rc Hd) as [_ [Ht [Hp _]]]. rewrite collect_cum_id by assumption. apply IH. intros; discriminate.
   - destruct o as [i' k v| | | | |b]; try discriminate; cbn [sstep cycles]; unfold outs_of, st_of.
-    + destruct (Nat.eqb i' i); cbn [fst snd app s_agg s_down s_err].
-      * rewrite <- (IH a (cur ++ [(k, v)]) down err n Ha). rewrite vm1_app, measure_all_app. reflexivity.
+    + destruct (Nat.eqb i' i); cbn [fst snd app s_agg s_down s_err s_any].
+      * rewrite <- (IH a (cur ++ [(k, v)]) down err true n Ha). rewrite vm1_app, measure_all_app. reflexivity.
       * now apply IH.
-    + cbn [fst snd app s_agg s_down s_err]. now apply IH.
+    + cbn [fst snd app s_agg s_down s_err s_any]. now apply IH.
 Qed.
 
 Lemma stream_arun rc r i h :
-  stream rc r i h = map o_points (arun (scfg rc) (map vm1 (cycles true rc r i h false false [])) tm0 0 (new_agg 0)).
-Proof. unfold stream, sinit. apply (srun_cycles rc r i h (new_agg 0) [] false false 0%nat). reflexivity. Qed.
+  stream rc r i h = map o_points (arun (scfg rc) (map vm1 (cycles true rc r i h false false false [])) tm0 0 (new_agg 0)).
+Proof. unfold stream, sinit. apply (srun_cycles rc r i h (new_agg 0) [] false false false 0%nat). reflexivity. Qed.
 
 Lemma nth_opoints (tr : list sobs) n : nth n (map o_points tr) [] = o_points (nth n tr odflt).
 Proof. change [] with (o_points odflt) at 1. now rewrite map_nth. Qed.
@@ -164,12 +166,12 @@ Proof. change [] with (vm1 []) at 1. now rewrite map_nth. Qed.
 Lemma concat_vm1 cs : concat (map vm1 cs) = vm1 (concat cs).
 Proof. induction cs as [|c r IH]; [reflexivity|]. cbn [map concat]. now rewrite IH, vm1_app. Qed.
 
-Lemma stream_length rc r i h : length (stream rc r i h) = length (cycles true rc r i h false false []).
+Lemma stream_length rc r i h : length (stream rc r i h) = length (cycles true rc r i h false false false []).
 Proof. now rewrite stream_arun, map_length, arun_length, map_length. Qed.
 
-(** what the model delivers, in terms of the lossy cycles (holds with and without callback errors) *)
+(** what the model delivers, in terms of the lossy cycles (no guard) *)
 Lemma delta_exact_lossy rc r i h : r_delta rc = true ->
-  DeltaExact (cycles true rc r i h false false []) (stream rc r i h).
+  DeltaExact (cycles true rc r i h false false false []) (stream rc r i h).
 Proof.
   intros Hd. destruct (scfg_delta rc Hd) as [Hc [Hp Ho]].
   split; [apply stream_length|]. intros n k Hn.
@@ -179,7 +181,7 @@ Proof.
 Qed.
 
 Lemma cum_total_lossy rc r i h : r_delta rc = false ->
-  CumTotal (cycles true rc r i h false false []) (stream rc r i h).
+  CumTotal (cycles true rc r i h false false false []) (stream rc r i h).
 Proof.
   intros Hd. destruct (scfg_cum rc Hd) as [Hc [Ht [Hp Ho]]].
   split; [apply stream_length|]. intros n k Hn.
@@ -188,136 +190,136 @@ Proof.
   rewrite Ho. cbn [new_agg vals get ocomb]. rewrite firstn_map, concat_vm1. apply ofold_add_total.
 Qed.
 
-(** without callback errors, and for cumulative readers always, nothing is ever dropped *)
-Lemma attempt_no_err rc r down o : fst (fst (attempt rc r down false o)) <> CDropped.
+(** * When is a delivery skipped?  Only when a periodic reader's callback failed and the
+    collection produced nothing (fixes b162dd7, e0f719a). *)
+Definition is_shutdown (r : nat) (o : op) : bool := match o with Shutdown r' => Nat.eqb r' r | _ => false end.
+
+Lemma attempt_dropped rc r down err ad o : fst (fst (attempt rc r down err ad o)) = CDropped -> ad = false.
 Proof.
-  destruct o; cbn; try discriminate;
-    repeat match goal with |- context [if ?b then _ else _] => destruct b; cbn end;
-    try discriminate; destruct (rk rc); cbn; try discriminate;
-    repeat match goal with |- context [if ?b then _ else _] => destruct b; cbn end; discriminate.
+  destruct ad; [|reflexivity]. intros H. exfalso. revert H.
+  destruct o as [i k v|r'|r'|r'|r'|b]; cbn [attempt];
+    try destruct (Nat.eqb r' r); try destruct (rk rc); destruct down, err; cbn; discriminate.
 Qed.
 
-Lemma no_err_cons o t : no_err (o :: t) = true ->
-  no_err t = true /\ match o with SetErr true => False | _ => True end.
-Proof.
-  unfold no_err. cbn [forallb]. intros H. apply andb_true_iff in H as [H1 H2]. split; [exact H2|].
-  destruct o; try exact I. destruct b; [discriminate | exact I].
-Qed.
+(** nothing is ever lost: the lossy and the ideal reading coincide.  Invariant: a delta reader
+    with nothing to report has no measurement waiting. *)
+Definition quiet (rc : rcfg) (ad : bool) (cur : list (skey * Z)) : Prop :=
+  r_delta rc = true -> ad = false -> cur = [].
 
-Lemma cycles_no_err l1 l2 rc r i h : no_err h = true -> forall down cur,
-  cycles l1 rc r i h down false cur = cycles l2 rc r i h down false cur.
+Lemma cycles_clean l1 l2 rc r i h : forall down err ad cur, quiet rc ad cur ->
+  cycles l1 rc r i h down err ad cur = cycles l2 rc r i h down err ad cur /\
+  pending l1 rc r i h down err ad cur = pending l2 rc r i h down err ad cur.
 Proof.
-  induction h as [|o t IH]; intros Hn down cur; [reflexivity|].
-  apply no_err_cons in Hn as [Hn Ho].
+  induction h as [|o t IH]; intros down err ad cur Hq; [split; reflexivity|].
+  assert (Hq0 : forall a, quiet rc (next_ad rc a) []) by (intros a _ _; reflexivity).
   destruct (reader_op o) eqn:Hro.
-  - rewrite !cycles_reader by exact Hro. pose proof (attempt_no_err rc r down o) as Hnd.
-    destruct (attempt rc r down false o) as [[c d'] code]. destruct c; cbn in Hnd; try congruence.
+  - rewrite !cycles_reader, !pending_reader by exact Hro.
+    pose proof (attempt_dropped rc r down err ad o) as Hd.
+    destruct (attempt rc r down err ad o) as [[c d'] code]. destruct c; cbn [fst] in Hd.
     + now apply IH.
-    + f_equal. now apply IH.
-  - destruct o as [i' k v| | | | |b]; try discriminate; cbn [cycles].
+    + destruct (IH d' err (next_ad rc ad) [] (Hq0 ad)) as [E1 E2]. now rewrite E1, E2.
+    + pose proof (Hd eq_refl) as Had.
+      assert (Ecur : (if l1 && r_delta rc then [] else cur) = (if l2 && r_delta rc then [] else cur)).
+      { destruct (r_delta rc) eqn:Hdl; [|now rewrite !andb_false_r].
+        rewrite (Hq eq_refl Had). destruct l1, l2; reflexivity. }
+      rewrite Ecur. apply IH.
+      intros Hdl _. destruct (l2 && r_delta rc); [reflexivity|]. now apply Hq.
+  - destruct o as [i' k v| | | | |b]; try discriminate; cbn [cycles pending].
+    + apply IH. intros _ Hx. discriminate.
     + now apply IH.
-    + destruct b; [contradiction|]. now apply IH.
 Qed.
 
-Lemma pending_no_err l1 l2 rc r i h : no_err h = true -> forall down cur,
-  pending l1 rc r i h down false cur = pending l2 rc r i h down false cur.
+(** for cumulative readers the two readings coincide always *)
+Lemma cycles_cum l1 l2 rc r i h : r_delta rc = false -> forall down err ad cur,
+  cycles l1 rc r i h down err ad cur = cycles l2 rc r i h down err ad cur.
 Proof.
-  induction h as [|o t IH]; intros Hn down cur; [reflexivity|].
-  apply no_err_cons in Hn as [Hn Ho].
-  destruct (reader_op o) eqn:Hro.
-  - rewrite !pending_reader by exact Hro. pose proof (attempt_no_err rc r down o) as Hnd.
-    destruct (attempt rc r down false o) as [[c d'] code]. destruct c; cbn in Hnd; try congruence; now apply IH.
-  - destruct o as [i' k v| | | | |b]; try discriminate; cbn [pending].
-    + now apply IH.
-    + destruct b; [contradiction|]. now apply IH.
-Qed.
-
-Lemma cycles_cum l1 l2 rc r i h : r_delta rc = false -> forall down err cur,
-  cycles l1 rc r i h down err cur = cycles l2 rc r i h down err cur.
-Proof.
-  intros Hd. induction h as [|o t IH]; intros down err cur; [reflexivity|].
+  intros Hd. induction h as [|o t IH]; intros down err ad cur; [reflexivity|].
   destruct (reader_op o) eqn:Hro.
   - rewrite !cycles_reader by exact Hro. rewrite Hd, !andb_false_r.
-    destruct (attempt rc r down err o) as [[c d'] code]. destruct c; try apply IH. f_equal. apply IH.
+    destruct (attempt rc r down err ad o) as [[c d'] code]. destruct c; try apply IH. f_equal. apply IH.
   - destruct o as [i' k v| | | | |b]; try discriminate; cbn [cycles]; apply IH.
 Qed.
 
+Lemma quiet_init rc : quiet rc false [].
+Proof. intros _ _. reflexivity. Qed.
+
 (** clause: each measurement is counted in exactly one delta collection *)
-Lemma exactly_one rc r i h : r_delta rc = true -> no_err h = true ->
-  DeltaExact (cycles false rc r i h false false []) (stream rc r i h).
+Lemma exactly_one rc r i h : r_delta rc = true ->
+  DeltaExact (cycles false rc r i h false false false []) (stream rc r i h).
 Proof.
-  intros Hd Hn. rewrite (cycles_no_err false true) by exact Hn. now apply delta_exact_lossy.
+  intros Hd. rewrite (proj1 (cycles_clean false true rc r i h false false false [] (quiet_init rc))).
+  now apply delta_exact_lossy.
 Qed.
 
 (** clause: the latest cumulative value is the running total (no guard needed) *)
 Lemma cumulative_total rc r i h : r_delta rc = false ->
-  CumTotal (cycles false rc r i h false false []) (stream rc r i h).
+  CumTotal (cycles false rc r i h false false false []) (stream rc r i h).
 Proof.
   intros Hd. rewrite (cycles_cum false true) by exact Hd. now apply cum_total_lossy.
 Qed.
 
 (** return codes *)
 Lemma codes_model rc r i h : forall s,
-  snd (fst (srun rc r i h s)) = codes rc r h (s_down s) (s_err s).
+  snd (fst (srun rc r i h s)) = codes rc r h (s_down s) (s_err s) (s_any s).
 Proof.
   induction h as [|o t IH]; intros s; [reflexivity|].
   rewrite srun_cons_codes. destruct (reader_op o) eqn:Hro.
-  - rewrite (sstep_reader rc r i s o Hro), (codes_reader rc r o t _ _ Hro).
-    destruct (attempt rc r (s_down s) (s_err s) o) as [[c d'] code].
+  - rewrite (sstep_reader rc r i s o Hro), (codes_reader rc r o t _ _ _ Hro).
+    destruct (attempt rc r (s_down s) (s_err s) (s_any s) o) as [[c d'] code].
     destruct c; unfold code_of, st_of; cbn [fst snd]; rewrite IH; reflexivity.
   - destruct o as [i' k v| | | | |b]; try discriminate; cbn [sstep codes].
     + destruct (Nat.eqb i' i); unfold code_of, st_of; cbn [fst snd]; rewrite IH; reflexivity.
     + unfold code_of, st_of; cbn [fst snd]. rewrite IH. reflexivity.
 Qed.
 
-Lemma stream_codes_spec rc r h : stream_codes rc r h = codes rc r h false false.
+Lemma stream_codes_spec rc r h : stream_codes rc r h = codes rc r h false false false.
 Proof. unfold stream_codes. now rewrite codes_model. Qed.
 
 (** * What is still in the aggregator *)
-Lemma final_delta rc r i h : r_delta rc = true -> forall cur down err,
-  s_agg (snd (srun rc r i h {| s_agg := measure_all (scfg rc) (vm1 cur) (new_agg 0); s_down := down; s_err := err |})) =
-  measure_all (scfg rc) (vm1 (pending true rc r i h down err cur)) (new_agg 0).
+Lemma final_delta rc r i h : r_delta rc = true -> forall cur down err ad,
+  s_agg (snd (srun rc r i h {| s_agg := measure_all (scfg rc) (vm1 cur) (new_agg 0); s_down := down; s_err := err; s_any := ad |})) =
+  measure_all (scfg rc) (vm1 (pending true rc r i h down err ad cur)) (new_agg 0).
 Proof.
-  intros Hd. induction h as [|o t IH]; intros cur down err; [reflexivity|].
+  intros Hd. induction h as [|o t IH]; intros cur down err ad; [reflexivity|].
   rewrite srun_cons_final. destruct (reader_op o) eqn:Hro.
-  - rewrite (sstep_reader rc r i _ o Hro), (pending_reader true rc r i o t down err cur Hro).
-    cbn [s_down s_err s_agg]. rewrite Hd. cbn [andb].
-    destruct (attempt rc r down err o) as [[c d'] code]. destruct c; unfold st_of; cbn [fst snd].
+  - rewrite (sstep_reader rc r i _ o Hro), (pending_reader true rc r i o t down err ad cur Hro).
+    cbn [s_down s_err s_agg s_any]. rewrite Hd. cbn [andb].
+    destruct (attempt rc r down err ad o) as [[c d'] code]. destruct c; unfold st_of; cbn [fst snd].
     + apply IH.
     + rewrite collect_delta_reset by exact Hd. apply (IH [] d' err).
     + rewrite collect_delta_reset by exact Hd. apply (IH [] d' err).
   - destruct o as [i' k v| | | | |b]; try discriminate; cbn [sstep pending]; unfold st_of.
-    + destruct (Nat.eqb i' i); cbn [fst snd s_agg s_down s_err].
-      * rewrite <- (IH (cur ++ [(k, v)]) down err). rewrite vm1_app, measure_all_app. reflexivity.
+    + destruct (Nat.eqb i' i); cbn [fst snd s_agg s_down s_err s_any].
+      * rewrite <- (IH (cur ++ [(k, v)]) down err true). rewrite vm1_app, measure_all_app. reflexivity.
       * apply IH.
-    + cbn [fst snd s_agg s_down s_err]. apply IH.
+    + cbn [fst snd s_agg s_down s_err s_any]. apply IH.
 Qed.
 
 Lemma pval_one k p z : pget k p = one z -> pval k p = match z with Some x => x | None => 0 end.
 Proof. unfold pval. intros ->. destruct z; reflexivity. Qed.
 
 Lemma residual_delta rc r i h k : r_delta rc = true ->
-  pval k (vals (stream_final rc r i h)) = total k (pending true rc r i h false false []).
+  pval k (vals (stream_final rc r i h)) = total k (pending true rc r i h false false false []).
 Proof.
   intros Hd. unfold stream_final, sinit.
   change (new_agg 0) with (measure_all (scfg rc) (vm1 []) (new_agg 0)) at 1.
-  rewrite (final_delta rc r i h Hd [] false false).
+  rewrite (final_delta rc r i h Hd [] false false false).
   unfold total. apply pval_one. rewrite pget_get, measure_all_get.
   destruct (scfg_delta rc Hd) as [_ [_ Ho]]. rewrite Ho. cbn [new_agg vals get ocomb]. apply ofold_add_total.
 Qed.
 
 (** every measurement is either in a delivered cycle or still pending (ideal reading) *)
-Lemma adds_split rc r i h : forall down err cur,
-  cur ++ adds_of i h = concat (cycles false rc r i h down err cur) ++ pending false rc r i h down err cur.
+Lemma adds_split rc r i h : forall down err ad cur,
+  cur ++ adds_of i h = concat (cycles false rc r i h down err ad cur) ++ pending false rc r i h down err ad cur.
 Proof.
-  induction h as [|o t IH]; intros down err cur; [cbn; now rewrite app_nil_r|].
+  induction h as [|o t IH]; intros down err ad cur; [cbn; now rewrite app_nil_r|].
   destruct (reader_op o) eqn:Hro.
-  - rewrite (cycles_reader false rc r i o t down err cur Hro), (pending_reader false rc r i o t down err cur Hro).
+  - rewrite (cycles_reader false rc r i o t down err ad cur Hro), (pending_reader false rc r i o t down err ad cur Hro).
     assert (Ha : adds_of i (o :: t) = adds_of i t) by (destruct o; try discriminate; reflexivity).
     rewrite Ha. cbn [andb].
-    destruct (attempt rc r down err o) as [[c d'] code]. destruct c.
+    destruct (attempt rc r down err ad o) as [[c d'] code]. destruct c.
     + apply IH.
-    + cbn [concat]. rewrite <- app_assoc. f_equal. apply (IH d' err []).
+    + cbn [concat]. rewrite <- app_assoc. f_equal. apply (IH d' err _ []).
     + apply IH.
   - destruct o as [i' k v| | | | |b]; try discriminate; cbn [cycles pending].
     + unfold adds_of. cbn [flat_map]. fold (adds_of i t). destruct (Nat.eqb i' i).
@@ -337,12 +339,12 @@ Proof.
 Qed.
 
 (** clause: delta values + what is still in the aggregator = everything recorded *)
-Lemma delta_conservation rc r i h : r_delta rc = true -> no_err h = true ->
+Lemma delta_conservation rc r i h : r_delta rc = true ->
   forall k, sum_outs k (stream rc r i h) + pval k (vals (stream_final rc r i h)) = total k (adds_of i h).
 Proof.
-  intros Hd Hn k. rewrite residual_delta by exact Hd.
-  rewrite (delta_exact_sum _ _ k (exactly_one rc r i h Hd Hn)).
-  rewrite (pending_no_err true false) by exact Hn.
+  intros Hd k. rewrite residual_delta by exact Hd.
+  rewrite (delta_exact_sum _ _ k (exactly_one rc r i h Hd)).
+  rewrite (proj2 (cycles_clean true false rc r i h false false false [] (quiet_init rc))).
   rewrite <- total_app, <- adds_split. reflexivity.
 Qed.
 
@@ -372,7 +374,7 @@ Lemma monotone_cum rc r i h : r_delta rc = false -> nonneg h -> Monotone (stream
 Proof.
   intros Hd Hn n m k Hnm Hm.
   destruct (cumulative_total rc r i h Hd) as [Hl Hp]. rewrite Hl in Hm.
-  set (cyc := cycles false rc r i h false false []) in *.
+  set (cyc := cycles false rc r i h false false false []) in *.
   rewrite (pval_one k _ _ (Hp n k ltac:(lia))), (pval_one k _ _ (Hp m k Hm)).
   change (total k (concat (firstn (S n) cyc)) <= total k (concat (firstn (S m) cyc))).
   assert (E : firstn (S m) cyc = firstn (S n) cyc ++ skipn (S n) (firstn (S m) cyc)).
@@ -382,175 +384,206 @@ Proof.
   apply total_nonneg. apply Forall_forall. intros kv Hin.
   assert (Hall : Forall (fun kv => 0 <= snd kv) (adds_of i h)) by now apply adds_of_nonneg.
   rewrite Forall_forall in Hall. apply Hall.
-  pose proof (adds_split rc r i h false false []) as Hs. cbn [app] in Hs. rewrite Hs. fold cyc.
+  pose proof (adds_split rc r i h false false false []) as Hs. cbn [app] in Hs. rewrite Hs. fold cyc.
   apply in_or_app. left. apply in_concat in Hin as [c [Hc Hin]]. apply in_concat. exists c. split; [|exact Hin].
   apply in_skipn in Hc. apply in_firstn in Hc. exact Hc.
 Qed.
 
 (** * Shutdown of a periodic reader: the final collection, then silence *)
-Definition fstep (lossy : bool) (rc : rcfg) (r : nat) (i : inst) (st : bool * bool * list (skey * Z)) (o : op)
-  : bool * bool * list (skey * Z) :=
-  let '(down, err, cur) := st in
+Definition fst4 := (bool * bool * bool * list (skey * Z))%type.
+Definition fstep (lossy : bool) (rc : rcfg) (r : nat) (i : inst) (st : fst4) (o : op) : fst4 :=
+  let '(down, err, ad, cur) := st in
   match o with
-  | Add i' k v => (down, err, if Nat.eqb i' i then cur ++ [(k, v)] else cur)
-  | SetErr b => (down, b, cur)
-  | _ => match attempt rc r down err o with
-         | (CNone, down', _) => (down', err, cur)
-         | (CDelivered, down', _) => (down', err, [])
-         | (CDropped, down', _) => (down', err, if lossy && r_delta rc then [] else cur)
+  | Add i' k v => (down, err, true, if Nat.eqb i' i then cur ++ [(k, v)] else cur)
+  | SetErr b => (down, b, ad, cur)
+  | _ => match attempt rc r down err ad o with
+         | (CNone, down', _) => (down', err, ad, cur)
+         | (CDelivered, down', _) => (down', err, next_ad rc ad, [])
+         | (CDropped, down', _) => (down', err, next_ad rc ad, if lossy && r_delta rc then [] else cur)
          end
   end.
 Definition fstate lossy rc r i h st := fold_left (fstep lossy rc r i) h st.
 
-Lemma cycles_app lossy rc r i h1 h2 : forall down err cur,
-  cycles lossy rc r i (h1 ++ h2) down err cur =
-  cycles lossy rc r i h1 down err cur ++
-  (let '(d, e, c) := fstate lossy rc r i h1 (down, err, cur) in cycles lossy rc r i h2 d e c).
+Lemma fstep_reader lossy rc r i down err ad cur o : reader_op o = true ->
+  fstep lossy rc r i (down, err, ad, cur) o =
+  match attempt rc r down err ad o with
+  | (CNone, down', _) => (down', err, ad, cur)
+  | (CDelivered, down', _) => (down', err, next_ad rc ad, [])
+  | (CDropped, down', _) => (down', err, next_ad rc ad, if lossy && r_delta rc then [] else cur)
+  end.
+Proof. destruct o; intros H; try discriminate; reflexivity. Qed.
+
+Lemma cycles_app lossy rc r i h1 h2 : forall down err ad cur,
+  cycles lossy rc r i (h1 ++ h2) down err ad cur =
+  cycles lossy rc r i h1 down err ad cur ++
+  (let '(d, e, a, c) := fstate lossy rc r i h1 (down, err, ad, cur) in cycles lossy rc r i h2 d e a c).
 Proof.
-  induction h1 as [|o t IH]; intros down err cur; [reflexivity|].
+  induction h1 as [|o t IH]; intros down err ad cur; [reflexivity|].
   cbn [app]. unfold fstate. cbn [fold_left]. fold (fstate lossy rc r i t).
   destruct (reader_op o) eqn:Hro.
-  - rewrite !cycles_reader by exact Hro.
-    assert (Hf : fstep lossy rc r i (down, err, cur) o =
-                 match attempt rc r down err o with
-                 | (CNone, down', _) => (down', err, cur)
-                 | (CDelivered, down', _) => (down', err, [])
-                 | (CDropped, down', _) => (down', err, if lossy && r_delta rc then [] else cur)
-                 end) by (destruct o; try discriminate; reflexivity).
-    rewrite Hf. destruct (attempt rc r down err o) as [[c d'] code]. destruct c.
+  - rewrite !cycles_reader by exact Hro. rewrite (fstep_reader lossy rc r i down err ad cur o Hro).
+    destruct (attempt rc r down err ad o) as [[c d'] code]. destruct c.
     + apply IH.
     + cbn [app]. f_equal. apply IH.
     + apply IH.
   - destruct o as [i' k v| | | | |b]; try discriminate; cbn [cycles fstep]; apply IH.
 Qed.
 
-Lemma pending_app lossy rc r i h1 h2 : forall down err cur,
-  pending lossy rc r i (h1 ++ h2) down err cur =
-  (let '(d, e, c) := fstate lossy rc r i h1 (down, err, cur) in pending lossy rc r i h2 d e c).
+Lemma pending_app lossy rc r i h1 h2 : forall down err ad cur,
+  pending lossy rc r i (h1 ++ h2) down err ad cur =
+  (let '(d, e, a, c) := fstate lossy rc r i h1 (down, err, ad, cur) in pending lossy rc r i h2 d e a c).
 Proof.
-  induction h1 as [|o t IH]; intros down err cur; [reflexivity|].
+  induction h1 as [|o t IH]; intros down err ad cur; [reflexivity|].
   cbn [app]. unfold fstate. cbn [fold_left]. fold (fstate lossy rc r i t).
   destruct (reader_op o) eqn:Hro.
-  - rewrite !pending_reader by exact Hro.
-    assert (Hf : fstep lossy rc r i (down, err, cur) o =
-                 match attempt rc r down err o with
-                 | (CNone, down', _) => (down', err, cur)
-                 | (CDelivered, down', _) => (down', err, [])
-                 | (CDropped, down', _) => (down', err, if lossy && r_delta rc then [] else cur)
-                 end) by (destruct o; try discriminate; reflexivity).
-    rewrite Hf. destruct (attempt rc r down err o) as [[c d'] code]. destruct c; apply IH.
+  - rewrite !pending_reader by exact Hro. rewrite (fstep_reader lossy rc r i down err ad cur o Hro).
+    destruct (attempt rc r down err ad o) as [[c d'] code]. destruct c; apply IH.
   - destruct o as [i' k v| | | | |b]; try discriminate; cbn [pending fstep]; apply IH.
 Qed.
 
-Definition is_shutdown (r : nat) (o : op) : bool := match o with Shutdown r' => Nat.eqb r' r | _ => false end.
-
-Lemma attempt_keeps_up rc r err o : is_shutdown r o = false -> snd (fst (attempt rc r false err o)) = false.
+Lemma attempt_keeps_up rc r err ad o : is_shutdown r o = false -> snd (fst (attempt rc r false err ad o)) = false.
 Proof.
   destruct o; cbn; intros H; try reflexivity;
     repeat match goal with |- context [if ?b then _ else _] => destruct b eqn:?; cbn end; try reflexivity; try discriminate;
     destruct (rk rc); cbn; repeat match goal with |- context [if ?b then _ else _] => destruct b; cbn end; reflexivity.
 Qed.
 
-Lemma fstate_up lossy rc r i h : no_err h = true -> forallb (fun o => negb (is_shutdown r o)) h = true ->
-  forall cur, exists c, fstate lossy rc r i h (false, false, cur) = (false, false, c).
+(** before the first Shutdown of reader r the reader is up *)
+Lemma fstate_up lossy rc r i h : forallb (fun o => negb (is_shutdown r o)) h = true ->
+  forall err ad cur, exists e a c, fstate lossy rc r i h (false, err, ad, cur) = (false, e, a, c).
 Proof.
-  induction h as [|o t IH]; intros Hn Hs cur; [now exists cur|].
-  apply no_err_cons in Hn as [Hn Ho]. cbn [forallb] in Hs. apply andb_true_iff in Hs as [Hs1 Hs].
+  induction h as [|o t IH]; intros Hs err ad cur; [now exists err, ad, cur|].
+  cbn [forallb] in Hs. apply andb_true_iff in Hs as [Hs1 Hs].
   apply negb_true_iff in Hs1. unfold fstate. cbn [fold_left]. fold (fstate lossy rc r i t).
   destruct (reader_op o) eqn:Hro.
-  - assert (Hf : fstep lossy rc r i (false, false, cur) o =
-                 match attempt rc r false false o with
-                 | (CNone, down', _) => (down', false, cur)
-                 | (CDelivered, down', _) => (down', false, [])
-                 | (CDropped, down', _) => (down', false, if lossy && r_delta rc then [] else cur)
-                 end) by (destruct o; try discriminate; reflexivity).
-    rewrite Hf. pose proof (attempt_keeps_up rc r false o Hs1) as Hu.
-    destruct (attempt rc r false false o) as [[c d'] code]. cbn in Hu. subst d'. destruct c; now apply IH.
-  - destruct o as [i' k v| | | | |b]; try discriminate; cbn [fstep].
-    + now apply IH.
-    + destruct b; [contradiction|]. now apply IH.
+  - rewrite (fstep_reader lossy rc r i false err ad cur o Hro).
+    pose proof (attempt_keeps_up rc r err ad o Hs1) as Hu.
+    destruct (attempt rc r false err ad o) as [[c d'] code]. cbn in Hu. subst d'. destruct c; now apply IH.
+  - destruct o as [i' k v| | | | |b]; try discriminate; cbn [fstep]; now apply IH.
 Qed.
 
-Lemma attempt_down rc r err o : fst (attempt rc r true err o) = (CNone, true).
+Lemma attempt_down rc r err ad o : fst (attempt rc r true err ad o) = (CNone, true).
 Proof.
   destruct o; cbn; try reflexivity;
     repeat match goal with |- context [if ?b then _ else _] => destruct b; cbn end; try reflexivity;
     destruct (rk rc); reflexivity.
 Qed.
 
-Lemma cycles_down lossy rc r i h : forall err cur, cycles lossy rc r i h true err cur = [].
+Lemma cycles_down lossy rc r i h : forall err ad cur, cycles lossy rc r i h true err ad cur = [].
 Proof.
-  induction h as [|o t IH]; intros err cur; [reflexivity|].
+  induction h as [|o t IH]; intros err ad cur; [reflexivity|].
   destruct (reader_op o) eqn:Hro.
-  - rewrite cycles_reader by exact Hro. pose proof (attempt_down rc r err o) as Hd.
-    destruct (attempt rc r true err o) as [[c d'] code]. cbn in Hd. inversion Hd; subst. apply IH.
+  - rewrite cycles_reader by exact Hro. pose proof (attempt_down rc r err ad o) as Hd.
+    destruct (attempt rc r true err ad o) as [[c d'] code]. cbn in Hd. inversion Hd; subst. apply IH.
   - destruct o as [i' k v| | | | |b]; try discriminate; cbn [cycles]; apply IH.
 Qed.
 
-Lemma attempt_shutdown rc r : rk rc = RPeriodic -> attempt rc r false false (Shutdown r) = (CDelivered, true, E_NIL).
-Proof. intros H. cbn. now rewrite Nat.eqb_refl, H. Qed.
-
-Lemma no_err_app a b : no_err (a ++ b) = no_err a && no_err b.
-Proof. unfold no_err. apply forallb_app. Qed.
+(** the first Shutdown of a periodic reader: the reader goes down; its final collection is delivered
+    unless it had nothing to report *)
+Lemma attempt_shutdown rc r e a : rk rc = RPeriodic ->
+  exists c code, attempt rc r false e a (Shutdown r) = (c, true, code) /\ (c = CDelivered \/ (c = CDropped /\ a = false)).
+Proof.
+  intros H. cbn. rewrite Nat.eqb_refl, H. destruct e; [destruct a|]; eexists; eexists; split; try reflexivity; auto.
+Qed.
 
 Lemma adds_of_app i a b : adds_of i (a ++ b) = adds_of i a ++ adds_of i b.
 Proof. unfold adds_of. apply flat_map_app. Qed.
 
-Lemma shutdown_cycles lossy rc r i h1 h2 : rk rc = RPeriodic -> no_err h1 = true ->
+Lemma shutdown_cycles lossy rc r i h1 h2 : rk rc = RPeriodic ->
   forallb (fun o => negb (is_shutdown r o)) h1 = true ->
-  cycles lossy rc r i (h1 ++ Shutdown r :: h2) false false [] =
-  cycles lossy rc r i (h1 ++ [Shutdown r]) false false [].
+  cycles lossy rc r i (h1 ++ Shutdown r :: h2) false false false [] =
+  cycles lossy rc r i (h1 ++ [Shutdown r]) false false false [].
 Proof.
-  intros Hk Hn Hs. rewrite !cycles_app.
-  destruct (fstate_up lossy rc r i h1 Hn Hs []) as [c Hc]. rewrite Hc. f_equal.
+  intros Hk Hs. destruct (fstate_up lossy rc r i h1 Hs false false []) as [e [a [c E]]].
+  rewrite !cycles_app, E. f_equal.
   rewrite !(cycles_reader lossy rc r i (Shutdown r)) by reflexivity.
-  rewrite attempt_shutdown by exact Hk. now rewrite cycles_down.
+  destruct (attempt_shutdown rc r e a Hk) as [x [code [Ea _]]]. rewrite Ea.
+  destruct x; now rewrite !cycles_down.
 Qed.
 
-Lemma shutdown_quiet rc r i h1 h2 : rk rc = RPeriodic -> no_err h1 = true ->
+Lemma shutdown_quiet rc r i h1 h2 : rk rc = RPeriodic ->
   forallb (fun o => negb (is_shutdown r o)) h1 = true ->
   stream rc r i (h1 ++ Shutdown r :: h2) = stream rc r i (h1 ++ [Shutdown r]).
-Proof. intros Hk Hn Hs. rewrite !stream_arun. now rewrite shutdown_cycles. Qed.
+Proof. intros Hk Hs. rewrite !stream_arun. now rewrite (shutdown_cycles true rc r i h1 h2 Hk Hs). Qed.
 
-Lemma shutdown_pending lossy rc r i h1 : rk rc = RPeriodic -> no_err h1 = true ->
+Lemma shutdown_pending_delta rc r i h1 : rk rc = RPeriodic -> r_delta rc = true ->
   forallb (fun o => negb (is_shutdown r o)) h1 = true ->
-  pending lossy rc r i (h1 ++ [Shutdown r]) false false [] = [].
+  pending true rc r i (h1 ++ [Shutdown r]) false false false [] = [].
 Proof.
-  intros Hk Hn Hs. rewrite pending_app.
-  destruct (fstate_up lossy rc r i h1 Hn Hs []) as [c Hc]. rewrite Hc.
-  rewrite (pending_reader lossy rc r i (Shutdown r)) by reflexivity.
-  rewrite attempt_shutdown by exact Hk. reflexivity.
+  intros Hk Hd Hs. destruct (fstate_up true rc r i h1 Hs false false []) as [e [a [c E]]].
+  rewrite pending_app, E. rewrite (pending_reader true rc r i (Shutdown r)) by reflexivity.
+  destruct (attempt_shutdown rc r e a Hk) as [x [code [Ea Hx]]]. rewrite Ea.
+  destruct Hx as [->|[-> _]]; [reflexivity|]. rewrite Hd. reflexivity.
 Qed.
 
-Lemma shutdown_final_delta rc r i h1 h2 : rk rc = RPeriodic -> r_delta rc = true -> no_err h1 = true ->
+Lemma shutdown_final_delta rc r i h1 h2 : rk rc = RPeriodic -> r_delta rc = true ->
   forallb (fun o => negb (is_shutdown r o)) h1 = true ->
   forall k, sum_outs k (stream rc r i (h1 ++ Shutdown r :: h2)) = total k (adds_of i h1).
 Proof.
-  intros Hk Hd Hn Hs k. rewrite shutdown_quiet by assumption.
-  assert (Hn' : no_err (h1 ++ [Shutdown r]) = true) by (rewrite no_err_app, Hn; reflexivity).
-  pose proof (delta_conservation rc r i _ Hd Hn' k) as Hc.
-  rewrite residual_delta in Hc by exact Hd. rewrite shutdown_pending in Hc by assumption.
-  rewrite adds_of_app in Hc. change (adds_of i [Shutdown r]) with (@nil (skey * Z)) in Hc.
-  rewrite app_nil_r in Hc. change (total k []) with 0 in Hc. lia.
+  intros Hk Hd Hs k. rewrite shutdown_quiet by assumption.
+  pose proof (delta_conservation rc r i (h1 ++ [Shutdown r]) Hd k) as Hcons.
+  rewrite residual_delta in Hcons by exact Hd.
+  rewrite shutdown_pending_delta in Hcons by assumption.
+  rewrite adds_of_app in Hcons. change (adds_of i [Shutdown r]) with (@nil (skey * Z)) in Hcons.
+  rewrite app_nil_r in Hcons. change (total k []) with 0 in Hcons. lia.
 Qed.
 
-Lemma shutdown_final_cum rc r i h1 h2 : rk rc = RPeriodic -> r_delta rc = false -> no_err h1 = true ->
-  forallb (fun o => negb (is_shutdown r o)) h1 = true ->
+(** a cumulative reader that has been fed anything has something to report *)
+Lemma cum_has_data lossy rc r i h : r_delta rc = false -> forall down err ad cur,
+  (ad = true \/ adds_of i h <> []) ->
+  exists d e c, fstate lossy rc r i h (down, err, ad, cur) = (d, e, true, c).
+Proof.
+  intros Hd. induction h as [|o t IH]; intros down err ad cur Hor.
+  - destruct Hor as [->|Hn]; [now exists down, err, cur | contradiction Hn; reflexivity].
+  - unfold fstate. cbn [fold_left]. fold (fstate lossy rc r i t).
+    destruct (reader_op o) eqn:Hro.
+    + rewrite (fstep_reader lossy rc r i down err ad cur o Hro).
+      assert (Ha : adds_of i (o :: t) = adds_of i t) by (destruct o; try discriminate; reflexivity).
+      rewrite Ha in Hor. unfold next_ad. rewrite Hd.
+      destruct (attempt rc r down err ad o) as [[c d'] code]. destruct c; now apply IH.
+    + destruct o as [i' k v| | | | |b]; try discriminate; cbn [fstep].
+      * apply IH. now left.
+      * apply IH. destruct Hor as [H|H]; [now left | right; exact H].
+Qed.
+
+Lemma shutdown_final_cum rc r i h1 h2 : rk rc = RPeriodic -> r_delta rc = false ->
+  forallb (fun o => negb (is_shutdown r o)) h1 = true -> adds_of i h1 <> [] ->
   let s := stream rc r i (h1 ++ Shutdown r :: h2) in
   (0 < length s)%nat /\ forall k, pget k (nth (length s - 1) s []) = one (cyc_total k (adds_of i h1)).
 Proof.
-  intros Hk Hd Hn Hs s. subst s. rewrite shutdown_quiet by assumption.
+  intros Hk Hd Hs Hne s. subst s. rewrite shutdown_quiet by assumption.
   destruct (cumulative_total rc r i (h1 ++ [Shutdown r]) Hd) as [Hl Hp].
-  set (cyc := cycles false rc r i (h1 ++ [Shutdown r]) false false []) in *.
-  assert (Hpos : (0 < length cyc)%nat).
-  { subst cyc. rewrite cycles_app. destruct (fstate_up false rc r i h1 Hn Hs []) as [c Hc]. rewrite Hc.
-    rewrite (cycles_reader false rc r i (Shutdown r)) by reflexivity. rewrite attempt_shutdown by exact Hk.
-    rewrite app_length. cbn. lia. }
+  destruct (fstate_up false rc r i h1 Hs false false []) as [e [a [c E]]].
+  destruct (cum_has_data false rc r i h1 Hd false false false [] (or_intror Hne)) as [d' [e' [c' E']]].
+  rewrite E in E'. inversion E'; subst d' e' a c'. clear E'.
+  assert (Hcyc : cycles false rc r i (h1 ++ [Shutdown r]) false false false [] =
+                 cycles false rc r i h1 false false false [] ++ [c] /\
+                 pending false rc r i (h1 ++ [Shutdown r]) false false false [] = []).
+  { rewrite cycles_app, pending_app, E.
+    rewrite (cycles_reader false rc r i (Shutdown r)), (pending_reader false rc r i (Shutdown r)) by reflexivity.
+    destruct (attempt_shutdown rc r e true Hk) as [x [code [Ea Hx]]]. rewrite Ea.
+    destruct Hx as [->|[_ Hf]]; [|discriminate]. split; reflexivity. }
+  destruct Hcyc as [Hcyc Hpend].
+  set (cyc := cycles false rc r i (h1 ++ [Shutdown r]) false false false []) in *.
+  assert (Hpos : (0 < length cyc)%nat) by (rewrite Hcyc, app_length; cbn; lia).
   split; [lia|]. intros k. rewrite Hl. rewrite Hp by lia.
   replace (S (length cyc - 1)) with (length cyc) by lia. rewrite firstn_all.
-  pose proof (adds_split rc r i (h1 ++ [Shutdown r]) false false []) as Ha. cbn [app] in Ha. fold cyc in Ha.
-  rewrite shutdown_pending in Ha by assumption. rewrite app_nil_r in Ha. rewrite <- Ha.
+  pose proof (adds_split rc r i (h1 ++ [Shutdown r]) false false false []) as Ha. cbn [app] in Ha. fold cyc in Ha.
+  rewrite Hpend in Ha. rewrite app_nil_r in Ha. rewrite <- Ha.
   rewrite adds_of_app. change (adds_of i [Shutdown r]) with (@nil (skey * Z)). now rewrite app_nil_r.
+Qed.
+
+Lemma shutdown_final : forall rc r i h1 h2,
+  rk rc = RPeriodic -> forallb (fun o => negb (is_shutdown r o)) h1 = true ->
+  let s := stream rc r i (h1 ++ Shutdown r :: h2) in
+  s = stream rc r i (h1 ++ [Shutdown r]) /\
+  (r_delta rc = true -> forall k, sum_outs k s = total k (adds_of i h1)) /\
+  (r_delta rc = false -> adds_of i h1 <> [] ->
+     (0 < length s)%nat /\ forall k, pget k (nth (length s - 1) s []) = one (cyc_total k (adds_of i h1))).
+Proof.
+  intros rc r i h1 h2 Hk Hs s. subst s. split; [now apply shutdown_quiet|]. split.
+  - intros Hd. now apply shutdown_final_delta.
+  - intros Hd Hne. now apply shutdown_final_cum.
 Qed.
 
 (** * Every reader: the full model is the family of streams *)
@@ -574,28 +607,33 @@ Proof.
   rewrite (map_nth (fun i => stream rc r i h)). now rewrite seq_nth.
 Qed.
 
-(** * F-C02-1: the full-strength statement is false of the code as it is *)
+(** * F-C02-1 (fixed by b162dd7 and e0f719a), kept as documentation: with the OLD reader semantics -
+    a periodic reader skipped the delivery whenever the collection reported a callback error - the
+    delta measurements collected for the skipped delivery were lost. *)
 Definition refute_rc : rcfg := {| rk := RPeriodic; r_delta := true |}.
-Definition refute_h : list op := [Add 0%nat 0%N 5; SetErr true; Flush 0%nat; SetErr false; Add 0%nat 0%N 7; Flush 0%nat].
 
-Lemma delta_conservation_refuted :
-  exists rc r i h k, r_delta rc = true /\
-    sum_outs k (stream rc r i h) + pval k (vals (stream_final rc r i h)) <> total k (adds_of i h).
-Proof. exists refute_rc, 0%nat, 0%nat, refute_h, 0%N. split; [reflexivity|]. vm_compute. discriminate. Qed.
+(** the history that failed before fix b162dd7 (ForceFlush while the callback fails) is now
+    delivered completely: recorded 12, exported 5 then 7 *)
+Definition old_failing_h : list op := [Add 0%nat 0%N 5; SetErr true; Flush 0%nat; SetErr false; Add 0%nat 0%N 7; Flush 0%nat].
+Definition old_failing_h2 : list op := [Add 0%nat 0%N 5; SetErr true; Shutdown 0%nat].
+Lemma old_failing_histories_now_ok :
+  stream refute_rc 0 0 old_failing_h = [[(0%N, [5])]; [(0%N, [7])]] /\
+  stream_ok false refute_rc 0 0 old_failing_h (stream refute_rc 0 0 old_failing_h) = true /\
+  stream refute_rc 0 0 old_failing_h2 = [[(0%N, [5])]] /\
+  stream_ok false refute_rc 0 0 old_failing_h2 (stream refute_rc 0 0 old_failing_h2) = true.
+Proof. vm_compute. repeat split; reflexivity. Qed.
 
-Lemma exactly_one_refuted :
-  exists rc r i h, r_delta rc = true /\ stream_ok false rc r i h (stream rc r i h) = false.
-Proof. exists refute_rc, 0%nat, 0%nat, refute_h. split; reflexivity. Qed.
-
-Lemma shutdown_final : forall rc r i h1 h2,
-  rk rc = RPeriodic -> no_err h1 = true -> forallb (fun o => negb (is_shutdown r o)) h1 = true ->
-  let s := stream rc r i (h1 ++ Shutdown r :: h2) in
-  s = stream rc r i (h1 ++ [Shutdown r]) /\
-  (r_delta rc = true -> forall k, sum_outs k s = total k (adds_of i h1)) /\
-  (r_delta rc = false -> (0 < length s)%nat /\
-                         forall k, pget k (nth (length s - 1) s []) = one (cyc_total k (adds_of i h1))).
-Proof.
-  intros rc r i h1 h2 Hk Hn Hs s. subst s. split; [now apply shutdown_quiet|]. split; intros Hd.
-  - now apply shutdown_final_delta.
-  - now apply shutdown_final_cum.
-Qed.
+(** what the deliveries looked like before the fixes (the lossy reading with the old [attempt]):
+    recorded 12, delivered 7 *)
+Definition attempt_before_fix (rc : rcfg) (r : nat) (down err : bool) (o : op) : cres * bool * N :=
+  match attempt rc r down err false o with
+  | (CDropped, d, c) => (CDropped, d, c)
+  | (x, d, c) => if err && match o with CollectR _ => false | _ => true end
+                 then (match x with CDelivered => CDropped | y => y end, d, c) else (x, d, c)
+  end.
+Lemma attempt_before_fix_dropped :
+  fst (fst (attempt_before_fix refute_rc 0 false true (Flush 0))) = CDropped /\
+  fst (fst (attempt_before_fix refute_rc 0 false true (Shutdown 0))) = CDropped /\
+  fst (fst (attempt refute_rc 0 false true true (Flush 0))) = CDelivered /\
+  fst (fst (attempt refute_rc 0 false true true (Shutdown 0))) = CDelivered.
+Proof. repeat split; reflexivity. Qed.
